@@ -4,6 +4,7 @@ import ApolloModel.Proofs.ParserValue9
 import ApolloModel.Proofs.ParserSel9
 import ApolloModel.Proofs.ParserComplete28
 import ApolloModel.Proofs.ParserExactS14
+import ApolloModel.Proofs.ParserExactT11
 import ApolloModel.Proofs.ParserDef19
 import ApolloModel.Proofs.ParserTermination8
 import ApolloModel.Proofs.ParserDoc5
@@ -921,6 +922,105 @@ theorem document_accept_complete_exact (rl : Nat) (src : Parse.Str) (its : List 
     (hx : ts.map astOfV = (docToks its).map some) (hne : its ≠ []) (hfit : ∀ i ∈ its, Parse.Exact.itemFit rl i)
     (hfol : Parse.Exact.DocFollowOk its) : (parse .document none rl src).errors = [] :=
   Parse.Exact.parseDocument_complete_items rl src its ts e hclean hsig he hx hne hfit hfol
+
+/-! ### growth 11: exact soundness of the type-system productions (builderD's share: the leaves, `scalar`, `enum`,
+`input`, their extensions, `schema` and its extension) -/
+
+/-- **input_value_definition_accept_sound_exact.**  An error-free run of `input_value_definition` entered on a Name or
+    String token consumed `tIVD v` for ONE input value definition within the budget of the start state
+    (`Parse.Exact.ivdFit`: type nesting, `Const` default value of exact depth, `Const` directives) — or stopped at the
+    end of input (the `AtEof` alternative of `ConsE`, excluded by whatever closes the list). -/
+theorem input_value_definition_accept_sound_exact (n : Nat) (s s' : PState) (t : Tok) (rest : List Tok) (w : TW s) (he : EofEnd s)
+    (ht : Toks s = t :: rest) (hk : isNameOrStringK t.kind = true)
+    (h : (inputValueDefinition n).run s = .ok () s') (hnd : ¬ Doomed s') :
+    Parse.Exact.ConsE s s' (fun x => ∃ v : Ast.InputValueDef, x = Ast.tIVD v ∧ Parse.Exact.ivdFit (Parse.Exact.bud s) v) :=
+  Parse.Exact.ivd_sound n s s' t rest w he ht hk h hnd
+
+/-- **field_definition_accept_sound_exact**: `Description? Name ArgumentsDefinition? : Type Directives[Const]?` within the
+    budget of the start state (`Parse.Exact.fieldFit`) -/
+theorem field_definition_accept_sound_exact (n : Nat) (s s' : PState) (t : Tok) (rest : List Tok) (w : TW s) (he : EofEnd s)
+    (ht : Toks s = t :: rest) (hk : isNameOrStringK t.kind = true)
+    (h : (fieldDefinition n).run s = .ok () s') (hnd : ¬ Doomed s') :
+    Parse.Cons s s' (Parse.Exact.LFieldDef (Parse.Exact.bud s)) :=
+  Parse.Exact.fieldDefinition_sound n s s' t rest w he ht hk h hnd
+
+/-- **enum_value_definition_accept_sound_exact**: `Description? EnumValue Directives[Const]?` (`Parse.Exact.enumValFit`:
+    the value is not `true` / `false` / `null`, the directives within the budget) -/
+theorem enum_value_definition_accept_sound_exact (n : Nat) (s s' : PState) (t : Tok) (rest : List Tok) (w : TW s) (he : EofEnd s)
+    (ht : Toks s = t :: rest) (hk : isNameOrStringK t.kind = true)
+    (h : (enumValueDefinition n).run s = .ok () s') (hnd : ¬ Doomed s') :
+    Parse.Cons s s' (fun x => ∃ v : Ast.EnumValueDef, x = Ast.tEnumValueDef v ∧ Parse.Exact.enumValFit (Parse.Exact.bud s) v) :=
+  Parse.Exact.enumValueDefinition_sound n s s' t rest w he ht hk h hnd
+
+/-- the braced / parenthesised lists `( InputValueDefinition+ )`, `{ InputValueDefinition+ }`, `{ FieldDefinition+ }`,
+    `{ EnumValueDefinition+ }`, entered on their opening token: every item within the budget of the start state -/
+theorem arguments_definition_accept_sound_exact (n : Nat) (s s' : PState) (t : Tok) (rest : List Tok) (w : TW s) (he : EofEnd s)
+    (ht : Toks s = t :: rest) (hk : t.kind = .lParen) (h : (argumentsDefinition n).run s = .ok () s') (hnd : ¬ Doomed s') :
+    Parse.Cons s s' (Parse.Exact.LArgsDef (Parse.Exact.bud s)) :=
+  Parse.Exact.argumentsDefinition_sound n s s' t rest w he ht hk h hnd
+
+theorem input_fields_definition_accept_sound_exact (n : Nat) (s s' : PState) (t : Tok) (rest : List Tok) (w : TW s) (he : EofEnd s)
+    (ht : Toks s = t :: rest) (hk : t.kind = .lCurly) (h : (inputFieldsDefinition n).run s = .ok () s') (hnd : ¬ Doomed s') :
+    Parse.Cons s s' (Parse.Exact.LInputFields (Parse.Exact.bud s)) :=
+  Parse.Exact.inputFieldsDefinition_sound n s s' t rest w he ht hk h hnd
+
+theorem fields_definition_accept_sound_exact (n : Nat) (s s' : PState) (t : Tok) (rest : List Tok) (w : TW s) (he : EofEnd s)
+    (ht : Toks s = t :: rest) (hk : t.kind = .lCurly) (h : (fieldsDefinition n).run s = .ok () s') (hnd : ¬ Doomed s') :
+    Parse.Cons s s' (Parse.Exact.LFields (Parse.Exact.bud s)) :=
+  Parse.Exact.fieldsDefinition_sound n s s' t rest w he ht hk h hnd
+
+theorem enum_values_definition_accept_sound_exact (n : Nat) (s s' : PState) (t : Tok) (rest : List Tok) (w : TW s) (he : EofEnd s)
+    (ht : Toks s = t :: rest) (hk : t.kind = .lCurly) (h : (enumValuesDefinition n).run s = .ok () s') (hnd : ¬ Doomed s') :
+    Parse.Cons s s' (Parse.Exact.LEnumVals (Parse.Exact.bud s)) :=
+  Parse.Exact.enumValuesDefinition_sound n s s' t rest w he ht hk h hnd
+
+/-- **scalar_definition_accept_sound_exact**: the field `scalar` of `Parse.Exact.DefExact` — entered as the dispatcher
+    enters it on a lexer queue, an error-free run of `scalar_type_definition` consumed `(.scalar desc nm ds).toks` with
+    `Parse.Exact.looseFit` at the budget of the start state -/
+theorem scalar_definition_accept_sound_exact (n : Nat) :
+    Parse.Exact.DefSound (DStart "scalar".toList) (scalarTypeDefinition n) := Parse.Exact.scalarDef_sound n
+
+/-- **enum_definition_accept_sound_exact**: the field `enumDef` of `Parse.Exact.DefExact`; when the braces body is absent
+    the next significant token is not `{` -/
+theorem enum_definition_accept_sound_exact (n : Nat) :
+    Parse.Exact.DefSound (DStart "enum".toList) (enumTypeDefinition n) := Parse.Exact.enumDef_sound n
+
+/-- **input_object_definition_accept_sound_exact**: the field `input` of `Parse.Exact.DefExact` -/
+theorem input_object_definition_accept_sound_exact (n : Nat) :
+    Parse.Exact.DefSound (DStart "input".toList) (inputObjectTypeDefinition n) := Parse.Exact.inputDef_sound n
+
+/-- **scalar_extension_accept_sound_exact**: the field `scalarExt` of `Parse.Exact.DefExact` (the directives are there) -/
+theorem scalar_extension_accept_sound_exact (n : Nat) :
+    Parse.Exact.DefSound (EStart "scalar".toList) (scalarTypeExtension n) := Parse.Exact.scalarExt_sound n
+
+/-- **enum_extension_accept_sound_exact**: the field `enumExt` of `Parse.Exact.DefExact` (directives or values are there) -/
+theorem enum_extension_accept_sound_exact (n : Nat) :
+    Parse.Exact.DefSound (EStart "enum".toList) (enumTypeExtension n) := Parse.Exact.enumExt_sound n
+
+/-- **input_object_extension_accept_sound_exact**: the field `inputExt` of `Parse.Exact.DefExact` -/
+theorem input_object_extension_accept_sound_exact (n : Nat) :
+    Parse.Exact.DefSound (EStart "input".toList) (inputObjectTypeExtension n) := Parse.Exact.inputExt_sound n
+
+/-- **schema_definition_accept_sound_exact, up to the recorded finding.**  `Parse.Exact.looseFit` asks every root
+    operation type to have its named type; the parser accepts `schema { query: }` (the recorded C05 finding), so an
+    error-free run establishes only `Parse.Exact.looseFitX` = `looseFit` without that clause
+    (`Parse.Exact.looseFitX_of_looseFit`, `Parse.Exact.looseFit_of_looseFitX`).  The conclusion is the hypothesis shape
+    of `Parse.Exact.defSound_of_loose`. -/
+theorem schema_definition_accept_sound_exact (n : Nat) (s s' : PState) (w : TW s) (he : EofEnd s) (hq : LexQ (Toks s))
+    (hs : DStart "schema".toList (Toks s)) (hr : (schemaDefinition n).run s = .ok () s') (hnd : ¬ Doomed s') :
+    ∃ (cs : List Tok) (l : LooseDef), Toks s = cs ++ Toks s' ∧ NoEof cs ∧ EofEnd s' ∧ TokIs (sig cs) l.toks ∧
+      Parse.Exact.looseFitX (Parse.Exact.bud s) l ∧ Settled s' ∧
+      (Parse.Exact.openBody l → ∀ t, s'.current = some t → t.kind ≠ .lCurly) :=
+  Parse.Exact.schemaDef_soundX n s s' w he hq hs hr hnd
+
+/-- **schema_extension_accept_sound_exact, up to the recorded finding** (see `schema_definition_accept_sound_exact`);
+    directives or root operation types are there, and without the braces the next significant token is not `{` -/
+theorem schema_extension_accept_sound_exact (n : Nat) (s s' : PState) (w : TW s) (he : EofEnd s) (hq : LexQ (Toks s))
+    (hs : EStart "schema".toList (Toks s)) (hr : (schemaExtension n).run s = .ok () s') (hnd : ¬ Doomed s') :
+    ∃ (cs : List Tok) (l : LooseDef), Toks s = cs ++ Toks s' ∧ NoEof cs ∧ EofEnd s' ∧ TokIs (sig cs) l.toks ∧
+      Parse.Exact.looseFitX (Parse.Exact.bud s) l ∧ Settled s' ∧
+      (Parse.Exact.openBody l → ∀ t, s'.current = some t → t.kind ≠ .lCurly) :=
+  Parse.Exact.schemaExt_soundX n s s' w he hq hs hr hnd
 
 end Executable
 
